@@ -2,6 +2,8 @@ use std::ops::{Deref, DerefMut};
 
 use celestia_proto::celestia::core::v1::proof::NmtProof as RawNmtProof;
 use celestia_proto::proof::pb::Proof as RawProof;
+use nmt_rs::NamespaceId;
+use nmt_rs::simple_merkle::error::RangeProofError;
 use nmt_rs::simple_merkle::proof::Proof as NmtProof;
 use serde::{Deserialize, Serialize};
 use tendermint_proto::Protobuf;
@@ -95,6 +97,82 @@ impl NamespaceProof {
             NmtNamespaceProof::AbsenceProof { ignore_max_ns, .. }
             | NmtNamespaceProof::PresenceProof { ignore_max_ns, .. } => *ignore_max_ns,
         }
+    }
+
+    /// Verify that the provided *raw* leaves are present and form a contiguous
+    /// subset of the `leaf_namespace`.
+    ///
+    /// Same as the [`nmt_rs`] method it shadows, but a malformed proof received
+    /// from the network results in an error instead of a panic.
+    pub fn verify_range(
+        &self,
+        root: &NamespacedHash,
+        raw_leaves: &[impl AsRef<[u8]>],
+        leaf_namespace: NamespaceId<NS_SIZE>,
+    ) -> Result<(), RangeProofError> {
+        let leaves = (!raw_leaves.is_empty()).then_some((leaf_namespace, leaf_namespace));
+        self.validate_nodes(leaves)?;
+        self.0.verify_range(root, raw_leaves, leaf_namespace)
+    }
+
+    /// Verify that the provided *raw* leaves are a complete `namespace`. This
+    /// may be a proof of presence or absence.
+    ///
+    /// Same as the [`nmt_rs`] method it shadows, but a malformed proof received
+    /// from the network results in an error instead of a panic.
+    pub fn verify_complete_namespace(
+        &self,
+        root: &NamespacedHash,
+        raw_leaves: &[impl AsRef<[u8]>],
+        namespace: NamespaceId<NS_SIZE>,
+    ) -> Result<(), RangeProofError> {
+        let leaves = match &self.0 {
+            NmtNamespaceProof::AbsenceProof { leaf, .. } => leaf
+                .as_ref()
+                .map(|leaf| (leaf.min_namespace(), leaf.max_namespace())),
+            NmtNamespaceProof::PresenceProof { .. } => {
+                (!raw_leaves.is_empty()).then_some((namespace, namespace))
+            }
+        };
+        self.validate_nodes(leaves)?;
+        self.0.verify_complete_namespace(root, raw_leaves, namespace)
+    }
+
+    /// Checks what [`nmt_rs`] takes for granted when verifying a proof and
+    /// panics otherwise: there are at least as many nodes as the start index
+    /// needs on its left side, and the nodes together with the proven `leaves`
+    /// (their min and max namespace) are ordered by namespace.
+    fn validate_nodes(
+        &self,
+        leaves: Option<(NamespaceId<NS_SIZE>, NamespaceId<NS_SIZE>)>,
+    ) -> Result<(), RangeProofError> {
+        let siblings = self.siblings();
+        let num_left_siblings = self.start_idx().count_ones() as usize;
+
+        if siblings.len() < num_left_siblings {
+            return Err(RangeProofError::MissingProofNode);
+        }
+
+        let (left, right) = siblings.split_at(num_left_siblings);
+        let namespaces = |node: &NamespacedHash| (node.min_namespace(), node.max_namespace());
+        let nodes = left
+            .iter()
+            .map(namespaces)
+            .chain(leaves)
+            .chain(right.iter().map(namespaces));
+
+        let mut prev_max = None;
+
+        for (min, max) in nodes {
+            if min > max || prev_max.is_some_and(|prev_max| prev_max > min) {
+                return Err(RangeProofError::MalformedProof(
+                    "proof nodes are not ordered by namespace",
+                ));
+            }
+            prev_max = Some(max);
+        }
+
+        Ok(())
     }
 
     /// Returns total amount of leaves in a tree for which proof was constructed.
